@@ -186,11 +186,8 @@ package hackpadfs
 //@   deterministic
 //@   ensures "native" implies(implements(fs, SubFS), r == old(ret("hackpadfs.(SubFS).Sub", 0, fs, dir)) && err == old(ret("hackpadfs.(SubFS).Sub", 1, fs, dir)) &&
 //@                      world() == old(worldAfter("hackpadfs.(SubFS).Sub", fs, dir)))
-//@   ensures "mount" implies(!implements(fs, SubFS) && implements(fs, MountFS),
-//@                      r == old(ret("hackpadfs.Sub", 0, mountOf(fs, dir), subOf(fs, dir))) &&
-//@                      translated(err, old(ret("hackpadfs.Sub", 1, mountOf(fs, dir), subOf(fs, dir))), dir, old(subOf(fs, dir))) &&
-//@                      world() == old(worldAfter("hackpadfs.Sub", mountOf(fs, dir), subOf(fs, dir))))
-//@   ensures "fallback" implies(!implements(fs, SubFS) && !implements(fs, MountFS), world() == old(world()) && iff(err == nil, VP(dir)) &&
+// a MountFS is wrapped as a whole (a view taken inside the file system mounted at dir would miss the mounts below dir)
+//@   ensures "fallback" implies(!implements(fs, SubFS), world() == old(world()) && iff(err == nil, VP(dir)) &&
 //@                      implies(err != nil, r == nil && isPathError(err) && pathOf(err) == dir && errIs(err, ErrInvalid)) &&
 //@                      implies(err == nil, isType(r, *subFS) && r.(*subFS).basePath == dir && r.(*subFS).rootFS == fs))
 //@   nopanic
